@@ -4,7 +4,7 @@ import ast
 from ..index import u, call_name, call_attr, walk_local, base_name
 from .. import flow
 from ..fold import try_fold
-from ..util import stmts_with_env, calls_with_env, assignments_to, single_def, kwarg, param_names, is_log_call, log_type
+from ..util import stmts_with_env, calls_with_env, assignments_to, single_def, kwarg, param_names, is_log_call, log_type, loops_around
 from .common import method, unconditional_in
 from .c09 import constituents_rule
 from . import shared
@@ -320,5 +320,58 @@ def run(ck):
     ok = len(lp) == 1 and 'new_molecule = self.run_molecule(molecule)' in u(lp[0]) and 'mols.append(new_molecule)' in u(lp[0]) and 'system.molecules = mols' in u(drs) \
         and 'system.force_field = self.to_ff' in u(drs)
     ck.ob('MPT-one-copy', mod.loc(drs), ok, 'every molecule of the system is converted, in system order, and the system is switched to the target force field', key='MPT-one-copy|run_system')
+    # ------------------------------------------------------------ modification mappings are chosen per connected group of modified atoms
+    mm = mod.func('modification_matches')
+    ck.analysed(mod, mm)
+    cov = [(c, st, cond, env) for c, st, cond, env in calls_with_env(mm, lambda c: call_name(c) == 'cover')]
+    ok = len(cov) == 1
+    detail = '{} cover() call(s)'.format(len(cov))
+    if ok:
+        call, st, cond, env = cov[0]
+        loops = [l for l in loops_around(mod, call, mm) if isinstance(l, ast.For)]
+        ok = len(loops) == 1 and isinstance(loops[0].target, ast.Name) and any(isinstance(n, ast.Name) and n.id == loops[0].target.id for n in ast.walk(call.args[0]))
+        detail = 'cover() is called once per group, on that group' if ok else 'cover() is not called per group (loop target not its argument)'
+        if ok:
+            gl = loops[0]
+            src_groups = u(gl.iter)
+            # the groups are the modification names per connected component of the modified atoms
+            comp = [l for l in mm.body if isinstance(l, ast.For) and 'connected_components' in u(flow.subst(l.iter, {k: v for st_, c_, e_ in stmts_with_env(mm, lambda s_: s_ is l) for k, v in e_.items()}))]
+            ok_g = len(comp) == 1 and '{}.append('.format(src_groups) in u(comp[0]) and all(unconditional_in(mm, comp[0].body, s_) for s_ in comp[0].body)
+            sub = single_def(mm, 'ptm_subgraph')
+            ok_g = ok_g and sub is not None and u(sub) == '{}.subgraph(modified_nodes)'.format(param_names(mm)[0])
+            ck.ob('MPT-mod-groups', mod.loc(mm), ok_g, 'a group is one connected component of the atoms that carry modifications; every component yields a group', key='MPT-mod-groups|components')
+            upd = stmts_with_env(mm, lambda s_: isinstance(s_, ast.Expr) and call_attr(s_.value) == 'update' and u(s_.value.func.value) == 'needed_mod_mappings', stmts=gl.body)
+            tgt = u(st.targets[0]) if isinstance(st, ast.Assign) else '?'
+            def is_none_atom(cond_):
+                ats = list(flow.atoms_of(cond_))
+                return ats[0] if len(ats) == 1 and ats[0][0] == 'Is' and 'None' in ats[0][1:] and any(x == tgt or 'cover(' in x for x in ats[0][1:]) else None
+            a_ = is_none_atom(upd[0][1]) if len(upd) == 1 else None
+            ok_u = a_ is not None and u(upd[0][0].value.args[0]) == tgt and flow.equivalent(upd[0][1], ('not', ('atom', a_)))[0] and \
+                not any(isinstance(n, (ast.Break, ast.Return, ast.Raise)) for n in ast.walk(gl))
+            ck.ob('MPT-mod-groups', mod.loc(gl), ok_u, 'the mappings covering a group are selected exactly when a cover exists for *that* group (a group without cover does not '
+                  'cancel the others)', key='MPT-mod-groups|select')
+            wl = [(c_, s_, k_, e_) for c_, s_, k_, e_ in calls_with_env(mm, lambda c_: is_log_call(c_), stmts=gl.body) if log_type(c_) == 'unmapped-atom']
+            a_ = is_none_atom(wl[0][2]) if len(wl) == 1 else None
+            ok_w = a_ is not None and flow.equivalent(wl[0][2], ('atom', a_))[0]
+            ck.ob('MPT-mod-groups', mod.loc(gl), ok_w, 'a group that cannot be covered is reported as unmapped-atom warning, exactly then', key='MPT-mod-groups|report')
+    ck.ob('MPT-mod-groups', mod.loc(mm), ok, 'modification mappings are chosen per connected group of modified atoms: ' + detail, key='MPT-mod-groups|per-group')
+    ml = [l for l in ast.walk(mm) if isinstance(l, ast.For) and call_attr(l.iter) == 'map']
+    ok = len(ml) == 1 and u(ml[0].iter.args[0]) == param_names(mm)[0] and u(kwarg(ml[0].iter, 'node_match')) == 'ptm_resname_match'
+    if ok:
+        app = [s_ for s_ in ml[0].body if isinstance(s_, ast.Expr) and call_attr(s_.value) == 'append' and u(s_.value.func.value) == 'matches']
+        ok = len(app) == 1 and unconditional_in(mm, ml[0].body, app[0]) and u(app[0].value.args[0]) == '({})'.format(', '.join(u(e) for e in ml[0].target.elts)) \
+            and not any(isinstance(n, (ast.Break, ast.Return)) for n in ast.walk(ml[0]))
+        outer = [l for l in loops_around(mod, ml[0], mm)]
+        ok = ok and len(outer) == 1 and 'needed_mod_mappings' in u(outer[0].iter) and not any(isinstance(n, (ast.Break, ast.Continue)) for n in outer[0].body)
+    ck.ob('MPT-mod-groups', mod.loc(mm), ok, 'every placement of every selected modification mapping on the molecule is returned (no early exit, nothing filtered)', key='MPT-mod-groups|all-placements')
+    cv = mod.func('cover')
+    ck.analysed(mod, cv)
+    rec = [c for c in walk_local(cv) if isinstance(c, ast.Call) and call_name(c) == 'cover']
+    src = u(cv)
+    ok = len(rec) == 1 and [u(a) for a in rec[0].args] == ['left_to_cover', 'options[idx:]'] and 'if all((item in to_cover for item in option)):' in src and \
+        'left_to_cover = to_cover.copy()' in src and 'left_to_cover.remove(item)' in src and 'return [option] + found' in src and \
+        isinstance(cv.body[-1], ast.Return) and u(cv.body[-1].value) == 'None' and 'if not to_cover:\n    return []' in src.replace('\n        ', '\n    ')
+    ck.ob('MPT-mod-groups', mod.loc(cv), ok, 'cover() is an exact cover: an option qualifies only when all its items are still to be covered, its items are removed from a copy, '
+          'the rest is covered recursively, and failure is None', key='MPT-mod-groups|exact-cover')
     shared.truthy_zero(ck, [DM, 'vermouth/map_parser.py'])
     ck.assume('that the matcher finds every placement, the residue renumbering arithmetic and modification mapping covers are not decided')
